@@ -53,6 +53,12 @@ CLAIMED = {
   "note": "Trusted: Lean kernel; Rust's ordered containers. Value preservation of canonicalize is decided by exhaustive computation over the shipped database (complete for it), not by a theorem for arbitrary databases; random databases with colliding names are not generated yet.",
   "design_ref": "DESIGN.md §7 C07",
  },
+ "C18": {
+  "technique": "Lean 4 proof by induction over request sequences of a message-level model of parent loop, child loop and pipes (sandbox_refines, no_stale_reply) + differential correspondence driving the real Sandbox with a fault-injecting test service",
+  "text": "For request sequences of any length, every fault kind in every position and every resolution of the write-to-dead-child race: each request gets exactly one reply, which is its own outcome (result, panic, timeout, crashed), in order, and the loop is back in the idle invariant (child alive, fresh pipes, nothing unread) before the next request, so no stale reply can be delivered and later requests are served normally (sandbox_refines, no_stale_reply, one_reply_per_request); the pre-fix loop is shown to sacrifice the next request or to wedge (unfixed_*). Tied to sandbox/src/parent.rs and child.rs by driving the real Sandbox, one fresh parent process per sequence, with a test service whose requests answer, panic, overrun the time limit, allocate beyond the memory limit, exit, or carry a 1 MiB payload: all sequences up to length 3 (quick) / 4 (thorough) plus random sequences of length 5, varied gaps; replies compared with each request's own outcome and with the model.",
+  "note": "Trusted: Lean kernel; the message-level abstraction of OS pipes, process exit and kill; async-std channels and timers; bincode framing. Real timing, scheduling, ctrl-c delivery and pipe capacity are runtime behaviour the model cannot exhibit (named partial in DESIGN.md).",
+  "design_ref": "DESIGN.md §7 C18",
+ },
 }
 
 NOT_YET = {
